@@ -204,7 +204,7 @@ func hazards() []hazard {
 			continue
 		}
 		if id == "err" {
-			body := "import (\n\t\"context\"\n\t\"errors\"\n\n\t\"go.uber.org/cff\"\n)\n\nfunc Run(ctx context.Context, n int) (string, error) {\n\terr := errors.New(\"mine\")\n\tvar out string\n\terr2 := cff.Flow(ctx,\n\t\tcff.Params(err.Error()),\n\t\tcff.Results(&out),\n\t\tcff.Task(func(s string) (string, error) { return s + \"!\", nil }),\n\t)\n\t_ = n\n\treturn out, err2\n}\n"
+			body := "import (\n\t\"context\"\n\t\"errors\"\n\n\t\"go.uber.org/cff\"\n)\n\nfunc Run(ctx context.Context, n int) (int, error) {\n\terr := errors.New(\"mine\")\n\tvar out int\n\terr2 := cff.Flow(ctx,\n\t\tcff.Params(err.Error()),\n\t\tcff.Results(&out),\n\t\tcff.Task(func(s string) (int, error) { return len(s) + n, nil }),\n\t)\n\treturn out, err2\n}\n"
 			add("user-ident-named-like-generated:err", "accept", body, nil)
 			continue
 		}
